@@ -1245,6 +1245,34 @@ Proof.
       cbn [with_env env] in Hl. now rewrite Hl.
 Qed.
 
+(* `b get a` (assignment to an existing variable): b's slot, and only it, receives a's value *)
+Lemma exec_set_S : forall n sid vn vl e s,
+  exec P eps (S n) (SSet sid vn vl e) s =
+  bindM (eval P eps n e s) (fun '(v, s1) =>
+    match assign_env vl vn v (env s1) with
+    | Some e' => OkM (FNormal, with_env e' s1)
+    | None => PanicM PAssignMissing
+    end).
+Proof. reflexivity. Qed.
+
+Lemma assign_var_is_value : forall n sid b lb a la s o fl s1,
+  exec P eps (S n) (SSet sid b lb (EVar a la)) s = (o, Ok (fl, s1)) ->
+  exists va,
+    lookup_env la a (env s) = Some va /\ lookup_env lb b (env s1) = Some va /\ (forall l' n', find_pos l' n' (env s) <> find_pos lb b (env s) ->
+                   lookup_env l' n' (env s1) = lookup_env l' n' (env s)) /\ shape (env s1) = shape (env s) /\ fns s1 = fns s.
+Proof.
+  intros n sid b lb a la s o fl s1 H. rewrite exec_set_S in H.
+  destruct n as [|n]; [discriminate H|].
+  bind_inv H. destruct a0 as [v s0]. rewrite eval_var_S in Hm.
+  destruct (lookup_env la a (env s)) as [va|] eqn:Hla; [|discriminate Hm].
+  inversion Hm; subst.
+  destruct (assign_env lb b v (env s0)) as [e'|] eqn:Ha; [|discriminate H].
+  inversion H; subst. cbn [with_env env fns].
+  destruct (assign_env_lookup _ _ _ _ _ Ha) as (Hnew & _ & Hoth & _).
+  destruct (assign_env_frame _ _ _ _ _ Ha) as (_ & _ & _ & _ & _ & _ & Hshape).
+  exists v. auto.
+Qed.
+
 (* storing a variable into an array literal, passing it, returning it: the value itself
    is what travels; the source variable is not touched *)
 Lemma read_var_is_value : forall n a la s o v s',
